@@ -28,7 +28,7 @@
         vg.c are the ones the model was written from.
     (7) header_size_change_is_flagged (full). *)
 From Coq Require Import ZArith List Bool Lia.
-Require Import H4.gen.Gen_VS H4.VSModel H4.VTableSpec H4.VSProofs H4.VSCodecProofs H4.VSChunkProofs H4.VSLayoutProofs H4.VSFullProofs.
+Require Import H4.gen.Gen_VS H4.VSModel H4.VTableSpec H4.VSProofs H4.VSCodecProofs H4.VSChunkProofs H4.VSLayoutProofs H4.VSFullProofs H4.VSDeepProofs.
 Import ListNotations.
 Local Open Scope Z_scope.
 
@@ -209,7 +209,8 @@ Print Assumptions gather_scatter_generic.
 Theorem model_follows_source :
   VSwrite_skeleton = VSwrite_skeleton_modelled /\ VSread_skeleton = VSread_skeleton_modelled /\
   vpackvs_order = vpackvs_order_modelled /\ vunpackvs_order = vunpackvs_order_modelled /\
-  VSsetname_len_stmts = VSsetname_len_stmts_modelled /\ VSsetclass_len_stmts = VSsetclass_len_stmts_modelled.
+  VSsetname_len_stmts = VSsetname_len_stmts_modelled /\ VSsetclass_len_stmts = VSsetclass_len_stmts_modelled /\
+  VSsizeof_stmts = VSsizeof_stmts_modelled.
 Proof. exact model_follows_source_lemma. Qed.
 Print Assumptions model_follows_source.
 
@@ -293,3 +294,50 @@ Example ex_plans : p_chunks (write_plan 60000 40 0) = [17; 17; 6] /\ p_chunks (r
 Proof. vm_compute. repeat split. Qed.
 Example ex_comps_nonempty : length (wr_c_comps ex_fl 100 0 0 16 16) = 4%nat /\ length (rd_c_comps ex_fl [2; 0] 100 0 0 16 12) = 2%nat.
 Proof. vm_compute. split; reflexivity. Qed.
+
+(** (8) VSsizeof: for EVERY field list (subsets, permutations, repetitions, unknown names) VSsizeof(fields) is the size of one
+    record of the buffer VSread fills after VSsetfields(fields) -- both fail together --; it does not depend on the order
+    of the names; for the NULL list it is the whole record.  (The size added for a name is that of the MATCHING field:
+    statement [totalsize += vs->wlist.esize[j]] tied by model_follows_source.) *)
+Theorem vssizeof_is_read_size : forall fl names,
+  m_vssizeof fl (Some names) =
+  match m_setfields_r (map w_name fl) names with Some rl => uvsize_of fl rl | None => None end.
+Proof. exact vssizeof_is_read_size_lemma. Qed.
+Print Assumptions vssizeof_is_read_size.
+Theorem vssizeof_order_independent : forall fl rl rl', Permutation.Permutation rl rl' -> rl_ok fl rl -> rsum fl rl = rsum fl rl'.
+Proof. exact rsum_perm. Qed.
+Print Assumptions vssizeof_order_independent.
+Theorem vssizeof_all_fields_is_record_size : forall fl, Forall fld_ok fl -> m_vssizeof fl None = Some (isum fl).
+Proof. exact vssizeof_all_fields. Qed.
+Print Assumptions vssizeof_all_fields_is_record_size.
+Example ex_sizeof : m_vssizeof ex_fl (Some [[67]; [65]]) = Some 12 /\ m_vssizeof ex_fl (Some [[65]; [67]]) = Some 12 /\
+  m_vssizeof ex_fl (Some [[66]; [66]]) = Some 8 /\ m_vssizeof ex_fl (Some [[65]; [90]]) = None /\ m_vssizeof ex_fl None = Some 16.
+Proof. vm_compute. repeat split. Qed.
+
+(** (9) S, list level: what read_buf delivers, cell by cell and in total, for BOTH buffer interlaces, every table of n
+    records whose selected values have the sizes ss, every read list rl (subsets, permutations, repetitions): byte k of
+    the p-th selected field of record I sits at address
+        I * recsize + off_p + k   (FULL_INTERLACE)      n * off_p + I * size_p + k   (NO_INTERLACE),   off_p = sum of the sizes before p,
+    the delivered buffer has n * recsize bytes, and every position of it is such an address -- so these cells determine the
+    whole list.  With spec_table_cells (parse side) and vsread_after_vswrite (model side, same addresses as [saddr]) this
+    leaves only the arithmetic identification of the Z-valued [saddr] with the nat-valued [addrN] unmechanised. *)
+Theorem spec_read_cells : forall full T n rl ss I p k, shaped T n rl ss -> (I < n)%nat -> (p < length rl)%nat -> (k < nth p ss 0)%nat ->
+  nth (addrN full (VTableSpec.sum ss) n (VTableSpec.sum (firstn p ss)) (nth p ss 0%nat) I k) (read_buf full rl T 0 n) 0 =
+  nth k (nth (nth p rl 0%nat) (nth I T []) []) 0.
+Proof. exact read_buf_cell. Qed.
+Print Assumptions spec_read_cells.
+Theorem spec_read_length : forall full T n rl ss, shaped T n rl ss -> length (read_buf full rl T 0 n) = (n * VTableSpec.sum ss)%nat.
+Proof. exact read_buf_length. Qed.
+Print Assumptions spec_read_length.
+Theorem addresses_cover_buffer : forall full ss n a, (a < n * VTableSpec.sum ss)%nat ->
+  exists I p k, (I < n)%nat /\ (p < length ss)%nat /\ (k < nth p ss 0)%nat /\
+                a = addrN full (VTableSpec.sum ss) n (VTableSpec.sum (firstn p ss)) (nth p ss 0%nat) I k.
+Proof. exact addrN_onto. Qed.
+Print Assumptions addresses_cover_buffer.
+Example ex_shaped : shaped (parse false [4; 4; 8]%nat 2 (map Z.of_nat (seq 1 32))) 2 [2; 0]%nat [8; 4]%nat /\
+  nth (addrN false 12 2 8 4 1 2) (read_buf false [2; 0]%nat (parse false [4; 4; 8]%nat 2 (map Z.of_nat (seq 1 32))) 0 2) 0 = 7.
+Proof.
+  split; [|vm_compute; reflexivity].
+  split; [reflexivity|]. split; [reflexivity|].
+  intros I p HI Hp. destruct I as [|[|I]]; [| |lia]; destruct p as [|[|p]]; try (cbn in Hp; lia); vm_compute; reflexivity.
+Qed.
